@@ -819,7 +819,17 @@ func c27LD(c *Ctx, left, right, shape string, fixed bool) {
 	longRun := false
 	hl, hr := hexs([]byte(left)), hexs([]byte(right))
 	csAns := c27W.call(fmt.Sprintf("lcs %s %s", ints(a), ints(b)))
-	cs, _ := c27ParseChunks(csAns)
+	cs, csOK := c27ParseChunks(csAns)
+	if csOK {
+		// the script LineDiff renders (lcs on the line ids of these texts), judged like every other script
+		line := fmt.Sprintf("lcs %s %s %s", ints(a), ints(b), c27Chunks(cs))
+		if cost, why := c27Script(a, b, cs); why != "" {
+			c.Case(line, "bad "+why, "")
+			c.Violate(fmt.Sprintf("script of LineDiff(%q, %q): %s", c27Short(left), c27Short(right), why), line)
+		} else {
+			c.Case(line, fmt.Sprintf("ok %d", cost), "")
+		}
+	}
 	textAns := c27W.call(fmt.Sprintf("ld %s %s", hl, hr))
 	panicked := textAns == "fatal" || textAns == "panic"
 	text := ""
